@@ -415,6 +415,8 @@ impl Terminal for UnixTerminal {
 
             let tty_write = PollEvent::new(&self.tty).with_writable(!self.write_queue.is_empty());
             self.poll.register(tty_write)?;
+            #[cfg(feature = "verif-hooks")]
+            verif::yield_point(verif::YieldPoint::BeforeSelect);
             let (waker, signal, tty) = match self.poll.wait(delay) {
                 Ok(events) => {
                     tracing::trace!(count = events.len(), "[UnixTerminal.poll] events");
@@ -433,11 +435,27 @@ impl Terminal for UnixTerminal {
                 }
             };
 
+            #[cfg(feature = "verif-hooks")]
+            {
+                verif::log(verif::IoEvent::Select {
+                    tty_readable: tty.is_readable(),
+                    tty_writable: tty.is_writable(),
+                    waker: waker.is_readable(),
+                    signal: signal.is_readable(),
+                });
+                verif::yield_point(verif::YieldPoint::AfterSelect);
+            }
+
             // process pending output
             if tty.is_writable() {
                 let tee = self.tee.as_mut();
                 let send = self.write_queue.consume_with(|slice| {
                     let size = guard_io(self.tty.write(slice), 0)?;
+                    #[cfg(feature = "verif-hooks")]
+                    verif::log(verif::IoEvent::TtyWrite {
+                        requested: slice.len(),
+                        written: size,
+                    });
                     tee.map(|tee| tee.write(&slice[..size])).transpose()?;
                     Ok::<_, Error>(size)
                 })?;
@@ -466,16 +484,24 @@ impl Terminal for UnixTerminal {
 
             // process waker
             if waker.is_readable() {
+                #[cfg(feature = "verif-hooks")]
+                verif::yield_point(verif::YieldPoint::BeforeWakerRead);
                 let mut buf = [0u8; 1024];
                 if guard_io(self.waker_read.read(&mut buf), 0)? != 0 {
                     self.events_queue.push_back(TerminalEvent::Wake);
                 }
+                #[cfg(feature = "verif-hooks")]
+                verif::log(verif::IoEvent::WakerRead);
             }
 
             // process pending input
             if tty.is_readable() {
+                #[cfg(feature = "verif-hooks")]
+                verif::yield_point(verif::YieldPoint::BeforeTtyRead);
                 let mut buf = [0u8; 1024];
                 let recv = guard_io(self.tty.read(&mut buf), 0)?;
+                #[cfg(feature = "verif-hooks")]
+                verif::log(verif::IoEvent::TtyRead { bytes: recv });
                 if recv == 0 {
                     return Err(Error::Quit);
                 }
@@ -777,5 +803,71 @@ impl PollEvents<'_> {
 
     pub fn len(&self) -> usize {
         self.matched.len()
+    }
+}
+
+/// Verification hooks (add-only, compiled only with feature `verif-hooks`)
+///
+/// Append-only log of IO steps taken by `UnixTerminal::poll` and yield points placed
+/// between its system calls, where a test harness can inject delays.
+#[cfg(feature = "verif-hooks")]
+pub mod verif {
+    use std::sync::{Arc, Mutex};
+
+    #[derive(Debug, Clone, Copy, PartialEq, Eq)]
+    pub enum IoEvent {
+        /// `select` returned with this readiness
+        Select {
+            tty_readable: bool,
+            tty_writable: bool,
+            waker: bool,
+            signal: bool,
+        },
+        /// write attempt to the tty (`written == 0` means EAGAIN/EINTR)
+        TtyWrite { requested: usize, written: usize },
+        /// waker socket was read
+        WakerRead,
+        /// tty was read (`bytes == 0` means EAGAIN/EINTR)
+        TtyRead { bytes: usize },
+    }
+
+    #[derive(Debug, Clone, Copy, PartialEq, Eq, Hash)]
+    pub enum YieldPoint {
+        BeforeSelect,
+        AfterSelect,
+        BeforeWakerRead,
+        BeforeTtyRead,
+    }
+
+    type YieldFn = Arc<dyn Fn(YieldPoint) + Send + Sync>;
+
+    static LOG: Mutex<Vec<IoEvent>> = Mutex::new(Vec::new());
+    static YIELD: Mutex<Option<YieldFn>> = Mutex::new(None);
+
+    pub(super) fn log(event: IoEvent) {
+        if let Ok(mut log) = LOG.lock() {
+            log.push(event);
+        }
+    }
+
+    pub(super) fn yield_point(point: YieldPoint) {
+        let yield_fn = YIELD.lock().ok().and_then(|guard| guard.clone());
+        if let Some(yield_fn) = yield_fn {
+            yield_fn(point)
+        }
+    }
+
+    /// Take all events logged so far
+    pub fn take_log() -> Vec<IoEvent> {
+        LOG.lock()
+            .map(|mut log| std::mem::take(&mut *log))
+            .unwrap_or_default()
+    }
+
+    /// Install (or remove) function called at every yield point
+    pub fn set_yield(yield_fn: Option<YieldFn>) {
+        if let Ok(mut guard) = YIELD.lock() {
+            *guard = yield_fn;
+        }
     }
 }
